@@ -107,11 +107,12 @@ def validate(chk, tunits):
 def main(chk):
     rnd = random.Random(chk.seed)
     quick = chk.tier == 'quick'
-    r = tlc.run('VTLOrder', 'VTLOrder_quick.cfg' if quick else 'VTLOrder_thorough.cfg', workers=12, timeout=3000)
+    r = tlc.run('VTLOrder', 'VTLOrder_quick.cfg' if quick else 'VTLOrder_thorough.cfg', workers=12, timeout=3000, coverage=True)
     if r.violated:
         chk.violation('model %s' % r.violated, 'TLC: %s violated in VTLOrder' % r.violated, r.output[-3000:])
     else:
         tlc.must(r, 'VTLOrder')
+        tlc.vacuity(chk, r, 'VTLOrder')
     chk.add('states', r.states)
     chk.add('transitions', r.generated)
     chk.cov['exhaustive'] = True
